@@ -61,4 +61,36 @@ theorem rewriteGo_body (a b body : Bytes) (h : sw body b!"@@" = true) :
     simp only [rewriteGo, hsw, if_true, Bool.not_false, rewriteGo_false]
     exact hcl
 
+/-- one line of text: no `\n` except the last byte -/
+def IsLine (l : Bytes) : Prop := ∃ s, l = s ++ [10] ∧ (10 : UInt8) ∉ s
+
+/-- the header loop on `l1 ++ l2 ++ body`: two rewritten lines, then `body` untouched -/
+theorem rewriteGo_shape (l1 l2 body a b : Bytes) (h1 : IsLine l1) (h2 : IsLine l2)
+    (p1 : sw l1 b!"--- " = true) (p2 : sw l2 b!"+++ " = true) (p3 : sw body b!"@@" = true) :
+    rewriteGo a b true (splitPreservingNewlines (l1 ++ l2 ++ body))
+      = b!"--- " ++ a ++ eol l1 ++ (b!"+++ " ++ b ++ eol l2 ++ body) := by
+  obtain ⟨s1, rfl, hs1⟩ := h1
+  obtain ⟨s2, rfl, hs2⟩ := h2
+  unfold splitPreservingNewlines
+  have e : s1 ++ [10] ++ (s2 ++ [10]) ++ body = s1 ++ [10] ++ (s2 ++ [10] ++ body) := by simp
+  rw [e, lines_line_append s1 _ hs1, lines_line_append s2 _ hs2]
+  have n1 : sw (s1 ++ [10]) b!"@@" = false := by
+    match s1, p1 with
+    | c :: _, p1 =>
+      have : c = 45 := by simp [sw, List.isPrefixOf] at p1; exact p1.1.symm
+      subst this; simp [sw, List.isPrefixOf]
+  have n2 : sw (s2 ++ [10]) b!"@@" = false := by
+    match s2, p2 with
+    | c :: _, p2 =>
+      have : c = 43 := by simp [sw, List.isPrefixOf] at p2; exact p2.1.symm
+      subst this; simp [sw, List.isPrefixOf]
+  have n3 : sw (s2 ++ [10]) b!"--- " = false := by
+    match s2, p2 with
+    | c :: _, p2 =>
+      have : c = 43 := by simp [sw, List.isPrefixOf] at p2; exact p2.1.symm
+      subst this; simp [sw, List.isPrefixOf]
+  simp only [rewriteGo, n1, n2, n3, p1, p2, Bool.false_eq_true, if_false, if_true, Bool.not_true,
+    rewriteGo_body a b body p3]
+
+
 end PatchText
